@@ -365,6 +365,12 @@ func hangCause(sc *Scenario, res *result) string {
 			return "request-with-body:first-attempt-failed-before-body-was-sent:no-per-try-timeout"
 		}
 	}
+	// an attempt reached an upstream after the global timeout had expired: the global timeout did not end the request, it went on retrying
+	for _, a := range res.Arrivals {
+		if a.At.After(res.T0.Add(gt + time.Duration(disturbedUs)*time.Microsecond)) {
+			return "global-timeout-fired-while-retry-was-being-set-up"
+		}
+	}
 	// an upstream failure and a timer of the same attempt fired within 5 ms of each other (failure near the attempt's per-try
 	// timeout, or a failure that is not retried near the global timeout)
 	tt := time.Duration(sc.TryMs) * time.Millisecond
